@@ -88,6 +88,8 @@ def _get_target_times(
     same evaluation time: the observable would be recorded twice. Therefore
     a multiple of ``dt`` that is (nearly) the duration is left to the duration,
     and an observable time that a grid time already matches is not added.
+    Likewise, an observable time within the tolerance of the previously added
+    one is not added: that one already matches it.
     """
     duration = float(sequence.get_duration(include_fall_time=config.with_modulation))
     dt = float(dt)
@@ -109,8 +111,12 @@ def _get_target_times(
         )
 
     observable_times = {t * duration for t in _unique_observable_times(config)}
-    extra_times = {t for t in observable_times if not is_on_grid(t)}
-    return sorted(grid_times | extra_times)
+    off_grid = sorted(t for t in observable_times if not is_on_grid(t))
+    extra_times: list[float] = []
+    for t in off_grid:
+        if not extra_times or t - extra_times[-1] > tolerance:
+            extra_times.append(t)
+    return sorted(grid_times | set(extra_times))
 
 
 def _extract_omega_delta_phi(
